@@ -39,6 +39,7 @@ Lemma rd_quoted_depth : forall D key bs, depth (rd_quoted L D key bs) = 0%nat.
 Proof.
   intros D key bs. unfold rd_quoted. destruct (_ && _ && _ && _); [| reflexivity].
   unfold quoted_key. destruct (eqbl bs t_true); [reflexivity |]. destruct (eqbl bs t_false); [reflexivity |].
+  destruct (Verif.C09.Model.jsonIsNumberLiteral bs); [| reflexivity].
   destruct (naked_num L D bs) eqn:E; try reflexivity. eapply naked_num_depth; eassumption.
 Qed.
 
